@@ -202,6 +202,7 @@ def floors(tier):
         "B:external_stops_notified": 40 * k,
         "B:runs_carried_on_after_failure": 40 * k,
         "B:ended_by_failure_limit": 1 * k,
+        "B:runs_with_max_failures_0_and_a_failure": 3 * k,
     })
     return f
 
@@ -1375,7 +1376,7 @@ def run_engine_b(spec):
     sp = {"seed": spec["seed"], "kind": spec["kind"], "backend": spec["backend"]}
     p = c01.expand(sp)
     rng = _r.Random(spec["seed"] + 17)
-    p["max_failures"] = rng.choice([1, 3, 100])
+    p["max_failures"] = rng.choice([0, 1, 3, 100])
     plan = {f"{rng.randint(0, 8)}:{rng.choice([0, 0, 1, 1])}": rng.randint(0, 3) for _ in range(rng.randint(1, 3))}
     p["sjwd"] = True  # start_jobs_without_delay=False is the subject of the open finding C01-K1
     if spec["backend"] == "proc":
@@ -1419,6 +1420,15 @@ def run_engine_b(spec):
     o.count("B:external_stops_notified", sub.counters.get("external_stops_notified", 0))
     o.count("B:failures_notified", sub.counters.get("failures_notified", 0))
     o.count("B:decided:failed_status_notified", sub.counters.get("decided:failed_status_notified", 0))
+    # 'exceeding the limit ends the run with an error that names a failed trial' (jobs whose polled status was 'failed')
+    n_failed_status = sub.counters.get("failures_notified", 0)
+    if r.exc is None and n_failed_status > p["max_failures"] and not sub.violations:
+        o.violate("failure_limit", "B:more_than_max_failures_failed_but_run_returned_normally",
+                  {"failed": n_failed_status, "max_failures": p["max_failures"], "kind": spec["kind"]})
+    elif n_failed_status > p["max_failures"]:
+        o.count("B:failure_limit_exceeded_decided")
+    if p["max_failures"] == 0 and n_failed_status > 0:
+        o.count("B:runs_with_max_failures_0_and_a_failure")
     o.set_sig(("B", spec["kind"], sig), nontrivial=n_fail > 0)
     o.sample = {"engine": "B", "kind": spec["kind"], "backend": spec["backend"], "on_trial_error_calls": n_fail,
                 "trace": ["%s%d" % s_ for s_ in sig[:25]]}
